@@ -248,7 +248,7 @@ func main() {
 			lines = append(lines, fmt.Sprintf("VIOLATION property=%s replay=%s", cfg.Property, dir))
 			lines = append(lines, fmt.Sprintf("  label=%s %s params=%v", v.v.Label, v.v.Msg, v.v.Params))
 		default:
-			agg.inconclusive = append(agg.inconclusive, fmt.Sprintf("counterexample for %q did not reproduce natively (%s): encoding or stub suspect", v.v.Label, st))
+			agg.inconclusive = append(agg.inconclusive, fmt.Sprintf("counterexample for %q (%s) did not reproduce natively (%s): encoding or stub suspect", v.v.Label, clip(v.v.Msg, 300), st))
 		}
 	}
 	seenKnown := map[string]bool{}
@@ -329,32 +329,38 @@ func matchOnly(only string, params map[string]int) bool {
 }
 
 func expand(tc *tierCfg) []map[string]int {
-	var out []map[string]int
-	if len(tc.Grid) > 0 || len(tc.Cases) == 0 {
-		keys := make([]string, 0, len(tc.Grid))
-		for k := range tc.Grid {
-			keys = append(keys, k)
-		}
-		sort.Strings(keys)
-		cur := []map[string]int{{}}
-		for _, k := range keys {
-			var next []map[string]int
-			for _, m := range cur {
-				for _, v := range tc.Grid[k] {
-					n := map[string]int{}
-					for kk, vv := range m {
-						n[kk] = vv
-					}
-					n[k] = v
-					next = append(next, n)
-				}
-			}
-			cur = next
-		}
-		out = append(out, cur...)
+	// cartesian product of the grid, multiplied with every explicit case (if any)
+	keys := make([]string, 0, len(tc.Grid))
+	for k := range tc.Grid {
+		keys = append(keys, k)
 	}
-	out = append(out, tc.Cases...)
-	return out
+	sort.Strings(keys)
+	cur := []map[string]int{{}}
+	if len(tc.Cases) > 0 {
+		cur = nil
+		for _, c := range tc.Cases {
+			n := map[string]int{}
+			for k, v := range c {
+				n[k] = v
+			}
+			cur = append(cur, n)
+		}
+	}
+	for _, k := range keys {
+		var next []map[string]int
+		for _, m := range cur {
+			for _, v := range tc.Grid[k] {
+				n := map[string]int{}
+				for kk, vv := range m {
+					n[kk] = vv
+				}
+				n[k] = v
+				next = append(next, n)
+			}
+		}
+		cur = next
+	}
+	return cur
 }
 
 func runInstance(prog *ssa.Program, inst instance, known map[string]bool, solverKind string, log bool, logPath string) instResult {
